@@ -154,7 +154,14 @@ func ruleStructDescriptor(c *Ctx) {
 		id, ok := sel.X.(*ast.Ident)
 		return ok && info.Uses[id] == fvar
 	}
-	isElemI := func(e ast.Expr) bool { // d.Elements[i]
+	// a local the element is built in before it is stored: `e := …; e.Index = …; d.Elements[i] = e`
+	var elemLocal types.Object
+	elemLocalStored := -1
+	var isElemI func(e ast.Expr) bool
+	isElemI = func(e ast.Expr) bool { // d.Elements[i]
+		if id, ok := ast.Unparen(e).(*ast.Ident); ok && elemLocal != nil {
+			return info.Uses[id] == elemLocal || info.Defs[id] == elemLocal
+		}
 		ix, ok := ast.Unparen(e).(*ast.IndexExpr)
 		if !ok {
 			return false
@@ -166,11 +173,25 @@ func ruleStructDescriptor(c *Ctx) {
 		sel, ok := ix.X.(*ast.SelectorExpr)
 		return ok && sel.Sel.Name == "Elements"
 	}
-	got := map[string]bool{}
-	for _, st := range rng.Body.List {
+	for i, st := range rng.Body.List {
 		as, ok := st.(*ast.AssignStmt)
 		if !ok || len(as.Lhs) != 1 || len(as.Rhs) != 1 {
 			continue
+		}
+		if id, ok := ast.Unparen(as.Rhs[0]).(*ast.Ident); ok && isElemI(as.Lhs[0]) {
+			if v, ok := info.Uses[id].(*types.Var); ok && v.Parent() != nil && v.Parent() != v.Pkg().Scope() {
+				elemLocal, elemLocalStored = v, i
+			}
+		}
+	}
+	got := map[string]bool{}
+	for i, st := range rng.Body.List {
+		as, ok := st.(*ast.AssignStmt)
+		if !ok || len(as.Lhs) != 1 || len(as.Rhs) != 1 {
+			continue
+		}
+		if elemLocal != nil && i >= elemLocalStored {
+			continue // the store of the finished element (and anything after it does not reach the descriptor)
 		}
 		lhs, rhs := as.Lhs[0], as.Rhs[0]
 		if isElemI(lhs) {
